@@ -18,6 +18,7 @@
 import Batchie.Lemmas.Dbal
 import Batchie.Lemmas.DbalRelabel
 import Batchie.Lemmas.DbalSpec
+import Batchie.Props.C15
 
 namespace Batchie.Props.C05
 open Batchie.Dbal
@@ -197,6 +198,42 @@ theorem C05_logsumexp_shift (xs : List (Option ℝ)) (M : ℝ) (hpos : 0 < (xs.m
     logSumExp (xs.map (fun o => o.map (fun x => x - M))) + M = logSumExp xs :=
   logSumExp_shift xs M hpos
 
+/-! ### the bridge to C15: the triple lists are the ones the kernel really draws -/
+
+section drawn
+open Batchie.UnrankCallsite
+
+/-- One kernel call with the triples it ACTUALLY uses (`triplesOf n choice`: the translator-generated
+    unranking function applied to the indices returned by `rng.choice`, `Model/UnrankCallsite.lean`):
+    whenever the budget covers `C(n,3)` and the draw satisfies numpy's contract, every plate of the
+    group gets the direct estimator over ALL triples.  No hypothesis about the triple list is left:
+    `C15_callsite` discharges it. -/
+theorem C05_group_with_drawn_triples (n : Nat) (D : Nat → Nat → ℝ) (factor : ℝ) (maxCombos : Nat)
+    (hbud : n.choose 3 ≤ maxCombos) (choice : List Nat)
+    (hc : ChoiceContract (comb3 n) (nCombos n maxCombos) choice) (group : List (Plate ℝ)) :
+    scoreGroup n D factor (triplesOf n choice) group
+      = group.map (fun p => scoreDirect D factor p (allTriples n)) := by
+  have hperm := (Batchie.Props.C15.C15_callsite n maxCombos choice hc).2.2.2 hbud
+  rw [scoreGroup_eq n D factor _ (valid_of_perm hperm) group]
+  apply List.map_congr_left
+  intro p _
+  exact scoreDirect_perm_triples D factor p hperm
+
+/-- `GaussianDBALScorer.score` with the draws of its successive kernel calls (`choices g` is what
+    `rng.choice` returned in the `g`-th sub-group): for every `max_chunk ≥ 1`, every `max_triples ≥
+    C(n,3)` and every sequence of draws satisfying numpy's contract the returned dict maps each id to
+    the direct estimator of its own plate over all triples. -/
+theorem C05_scorer_with_drawn_triples (n : Nat) (D : Nat → Nat → ℝ) (maxChunk : Nat) (hmc : 1 ≤ maxChunk)
+    (maxTriples : Nat) (hbud : n.choose 3 ≤ maxTriples) (choices : Nat → List Nat)
+    (hc : ∀ g, ChoiceContract (comb3 n) (nCombos n maxTriples) (choices g))
+    (plates : List (Nat × Plate ℝ)) (hkeys : (plates.map Prod.fst).Nodup) :
+    scorerScore n D maxChunk (fun g => triplesOf n (choices g)) plates
+      = plates.map (fun kp => (kp.1, scoreDirect D 1 kp.2 (allTriples n))) :=
+  C05_batchsize_invariant n D maxChunk hmc _
+    (fun g => (Batchie.Props.C15.C15_callsite n maxTriples (choices g) (hc g)).2.2.2 hbud) plates hkeys
+
+end drawn
+
 /-! ### the hypotheses are satisfiable (non-vacuity) -/
 
 /-- `allTriples n` is a valid triple list, and so is every permutation of it -/
@@ -258,5 +295,9 @@ example : List.Forall₂ (fun M V => ∃ L, Rect 3 L M ∧ Rect 3 L V)
 /-- homoscedastic plates exist in the experiment form used above -/
 example : homPlate [fun i => (i : ℝ), fun i => 2 * (i : ℝ)] (fun i => (i : ℝ) + 1)
     = [{ m := fun i => (i : ℝ), v := fun i => (i : ℝ) + 1 }, { m := fun i => 2 * (i : ℝ), v := fun i => (i : ℝ) + 1 }] := rfl
+
+/-- a draw for `n = 4` (`C(4,3) = 4`) under a budget of 5000 satisfying numpy's contract -/
+example : Batchie.UnrankCallsite.ChoiceContract (Batchie.UnrankCallsite.comb3 4)
+    (Batchie.UnrankCallsite.nCombos 4 5000) [2, 0, 3, 1] ∧ Nat.choose 4 3 ≤ 5000 := by decide
 
 end Batchie.Props.C05
